@@ -9,6 +9,7 @@
 #include <OpenVolumeMesh/Unstable/Topology/TetTopology.hh>
 #include <OpenVolumeMesh/Unstable/Topology/TriangleTopology.hh>
 #include <csignal>
+#include <algorithm>
 #include <set>
 #include <sys/wait.h>
 #if defined(__has_feature)
@@ -323,6 +324,76 @@ static void dump_hex_queries(Json &j, const HexK &m, int level) {
     j.end_obj();
 }
 
+// ------------------------------------------------------------- circulator protocol (C05)
+// Same record as harness/queries.cc (proto): for one (begin, end) pair and max_laps
+//   v0  begin.valid()          w   forward walk while valid()
+//   rf  the same through begin != end
+//   eq  begin advanced |w| times == end
+//   bk  k steps forward then k steps backward: handle, lap, valid after every step
+static const size_t PCAP = 120;
+template <class Pair> static void proto(Json &j, Pair pr, int laps) {
+    auto b = pr.first; auto e = pr.second;
+    j.begin_obj();
+    j.kv("laps", laps);
+    j.kv("v0", (bool)b.valid());
+    j.key("w"); { j.begin_arr(); size_t n = 0; for (auto it = b; it.valid() && n < PCAP; ++it, ++n) j.val((*it).idx()); if (n >= PCAP) j.val(-99); j.end_arr(); }
+    j.key("rf"); { j.begin_arr(); size_t n = 0; for (auto it = b; it != e && n < PCAP; ++it, ++n) j.val((*it).idx()); if (n >= PCAP) j.val(-99); j.end_arr(); }
+    size_t len = 0; { auto it = b; while (it.valid() && len < PCAP) { ++it; ++len; } }
+    if (b.valid() && len < PCAP) {
+        { auto it = b; for (size_t i = 0; i < len; ++i) ++it; j.kv("eq", (bool)(it == e)); }
+        size_t n1 = len / (size_t)laps;
+        size_t k = std::min(len - 1, n1 + 1);
+        j.key("bk"); j.begin_arr();
+        auto it = b;
+        j.begin_arr(); j.val((*it).idx()); j.val(it.lap()); j.val((bool)it.valid()); j.end_arr();
+        for (size_t i = 0; i < k; ++i) { ++it; j.begin_arr(); j.val((*it).idx()); j.val(it.lap()); j.val((bool)it.valid()); j.end_arr(); }
+        for (size_t i = 0; i < k; ++i) { --it; j.begin_arr(); j.val((*it).idx()); j.val(it.lap()); j.val((bool)it.valid()); j.end_arr(); }
+        j.end_arr();
+    }
+    j.end_obj();
+}
+#define VX_PROTO3(RANGE_EXPR) do { j.begin_arr(); for (int laps = 1; laps <= 3; ++laps) proto(j, RANGE_EXPR, laps); j.end_arr(); } while (0)
+
+// every specialised circulator of Mesh/TetrahedralMeshIterators.hh (TetVertexIter) for every live cell
+static void dump_tet_proto(Json &j, const TetK &m) {
+    j.begin_obj();
+    j.key("tv"); j.begin_arr();
+    for (auto c : m.cells()) {
+        if (m.cell(c).halffaces().size() != 4 || m.get_cell_vertices(c).size() != 4) continue;
+        j.begin_arr(); j.val(c.idx()); VX_PROTO3(m.tet_vertices(c, laps)); j.end_arr();
+    }
+    j.end_arr();
+    j.end_obj();
+}
+// ... and of Mesh/HexahedralMeshIterators.hh (HexVertexIter, CellSheetCellIter for the six
+// directions, HalfFaceSheetHalfFaceIter for every live halfface incl. boundary ones)
+static void dump_hex_proto(Json &j, const HexK &m) {
+    j.begin_obj();
+    j.key("hv"); j.begin_arr();
+    for (auto c : m.cells()) {
+        auto const &hfs = m.cell(c).halffaces();
+        bool shaped = hfs.size() == 6;
+        for (auto hfh : hfs) if (m.valence(hfh.face_handle()) != 4) shaped = false;
+        if (!shaped) continue;
+        j.begin_arr(); j.val(c.idx()); VX_PROTO3(m.hex_vertices(c, laps)); j.end_arr();
+    }
+    j.end_arr();
+    j.key("csc"); j.begin_arr();
+    for (auto c : m.cells()) {
+        if (m.cell(c).halffaces().size() != 6) continue;
+        for (unsigned char d = 0; d < 6; ++d) {
+            j.begin_arr(); j.val(c.idx()); j.val((int)d); VX_PROTO3(m.cell_sheet_cells(c, d, laps)); j.end_arr();
+        }
+    }
+    j.end_arr();
+    j.key("hfshf"); j.begin_arr();
+    for (auto hfh : m.halffaces()) {
+        j.begin_arr(); j.val(hfh.idx()); VX_PROTO3(m.halfface_sheet_halffaces(hfh, laps)); j.end_arr();
+    }
+    j.end_arr();
+    j.end_obj();
+}
+
 // ---------------------------------------------------------------- main loop
 // (same protocol as ovm_exec.cc: tree scripts, one fork per branch, every
 // logged line carries sid / psid; a crash inside a branch ends that branch only)
@@ -339,7 +410,7 @@ struct Runner {
     std::vector<vx::ScriptItem> items;
     std::unique_ptr<MeshBox> box;
     TetK *tet = nullptr; HexK *hex = nullptr;
-    int qlevel = 0; bool with_props = false;
+    int qlevel = 0; bool with_props = false; bool with_proto = false;
     long skip = 0;
 
     void reset(const vx::ScriptItem &it, long sid) {
@@ -350,10 +421,11 @@ struct Runner {
         box->type = it.meshtype; box->owner = make_mesh(it.meshtype); box->m = box->owner.get();
         tet = dynamic_cast<TetK *>(box->m);
         hex = dynamic_cast<HexK *>(box->m);
-        int plevel = 0; qlevel = 0;
+        int plevel = 0; qlevel = 0; with_proto = false;
         for (auto &kv : it.opts) {
             if (kv.first == "props") plevel = atoi(kv.second.c_str());
             if (kv.first == "q") qlevel = atoi(kv.second.c_str());
+            if (kv.first == "proto") with_proto = atoi(kv.second.c_str()) != 0;
         }
         with_props = plevel > 0;
         box->setup_props(plevel);
@@ -361,17 +433,25 @@ struct Runner {
         g_cur = sid;
     }
     void put_queries(Json &j) {
-        j.key("q");
-        if (tet) dump_tet_queries(j, *tet, qlevel);
-        else if (hex) dump_hex_queries(j, *hex, qlevel);
-        else { j.begin_obj(); j.end_obj(); }
+        if (qlevel > 0) {
+            j.key("q");
+            if (tet) dump_tet_queries(j, *tet, qlevel);
+            else if (hex) dump_hex_queries(j, *hex, qlevel);
+            else { j.begin_obj(); j.end_obj(); }
+        }
+        if (with_proto) {
+            j.key("proto");
+            if (tet) dump_tet_proto(j, *tet);
+            else if (hex) dump_hex_proto(j, *hex);
+            else { j.begin_obj(); j.end_obj(); }
+        }
     }
     void log_state(const char *e, long sid, bool with_q) {
         g_sid = sid;
         Json j; j.begin_obj(); j.kv("e", e); j.kv("x", (long long)g_exec); j.kv("sid", (long long)sid);
         j.kv("mesh", box->type);
         j.key("post"); dump_state(j, *box, true, with_props);
-        if (with_q && qlevel > 0) put_queries(j);
+        if (with_q && (qlevel > 0 || with_proto)) put_queries(j);
         j.end_obj(); vx::emit(j);
         g_sid = -1;
     }
@@ -396,7 +476,7 @@ struct Runner {
             vx::write_call(j, c);
             j.kv("ret", ret);
             j.key("post"); dump_state(j, *box, true, with_props);
-            if (qlevel > 0 && c.chk == 1) put_queries(j);
+            if ((qlevel > 0 || with_proto) && c.chk == 1) put_queries(j);
             j.end_obj(); vx::emit(j);
             g_cur = sid;
         }
@@ -420,7 +500,7 @@ struct Runner {
                 // the state line is written by this process; the queries on it run in a
                 // child (a second 'pre' line), so that a crash inside a query is contained
                 log_state("pre", (long)k, false); g_cur = (long)k;
-                if (qlevel > 0) {
+                if (qlevel > 0 || with_proto) {
                     fflush(stdout);
                     pid_t pid = fork();
                     if (pid < 0) { perror("fork"); exit(3); }
